@@ -49,6 +49,19 @@ def correspondence(ctx):
         if got != want or rows[0] != "address;balance" or bn.replace("balances", "") != un.replace("unspent", ""):
             ctx.disagree("cross-check", bb.describe(s), {"balances_only": sorted(set(got) - set(want))[:3], "header": rows[0], "name": bn, "n": len(got)}, {"aggregate_only": sorted(set(want) - set(got))[:3], "name": un, "n": len(want)}, True,
                          {"scenario": bb.scenario_dump(s), "observable": "balances=aggregate(unspent)"})
+    # outside the property's hypothesis (per-address sums < 2^64) but inside the model: the u64 sum of `on_complete` panics in the
+    # dev profile exactly when a balance leaves u64 (model: exit 101), and not one unit below
+    from .. import gen_history as GH
+    pan = []
+    for name, vals in [("balance-overflow", [1 << 63, 1 << 63]), ("balance-max", [1 << 63, (1 << 63) - 1]), ("balance-overflow-3", [(1 << 64) - 1, 1, 5])]:
+        addr = GC.spk(r, "bitcoin", "p2pkh")
+        blocks = [K.Block([GH.coinbase(h, [(v, addr)])], time=1000 + h) for h, v in enumerate(vals)]
+        GH.link(blocks)
+        s = K.Scenario(coin="bitcoin", callback="balances")
+        GC.simple_layout(s, blocks)
+        s.meta = {"panic-site": name}
+        pan.append(s)
+    bb.check(ctx, "balance-panic-sites", pan, [bb.cmp_exit, bb.cmp_rows], in_domain=lambda s, m: False)
 
 
 def replay(ctx, rep, corpus=None):
